@@ -179,7 +179,7 @@ TRANSLATED = {
     'C02': ['JWT.Verify', 'verifyIssuer', 'verifyAudience', 'verifyExpiration', 'verifyIssuedAt', 'verifyNotBefore', 'verifyTimeConstraint', 'VerifyJWTSignatureAndClaims'],
     'C04': ['isUserAuthenticated'],
     'C06': ['isAllowedDomain', 'extractGroupsAndRoles'],
-    'C07': ['splitIntoChunks'],
+    'C07': ['splitIntoChunks', 'SessionData.SetAccessToken', 'SessionData.GetAccessToken', 'SessionData.expireAccessTokenChunks', 'SessionData.SetRefreshToken', 'SessionData.GetRefreshToken', 'SessionData.expireRefreshTokenChunks'],
     'C08': ['isUserAuthenticated'],
     'C11': ['determineScheme', 'determineHost'],
     'C12': ['Cache.Set', 'Cache.Get', 'Cache.Delete', 'Cache.Cleanup', 'Cache.evictOldest', 'Cache.removeItem', 'TokenCache.Set', 'TokenCache.Get', 'TokenCache.Delete'],
